@@ -196,12 +196,28 @@ func runTrial(run *vk.Run, t trial) (out outcome) {
 	}
 	var upgradeDone atomic.Bool
 	ccfg := &eio.ClientConfig{Transports: []string{"polling", "websocket"}, UpgradeTimeout: time.Second,
-		UpgradeDone: func(string) { upgradeDone.Store(true) }}
+		UpgradeDone: func(string) {
+			upgradeDone.Store(true)
+			if os.Getenv("C07_DEBUG") != "" && estAt.Load() != 0 {
+				run.Logf("debug %s: UpgradeDone at est+%v", t.id(), time.Since(time.Unix(0, estAt.Load())).Round(time.Millisecond))
+			}
+		}}
 	if t.Fault == "heartbeat" {
 		ccfg.UpgradeTimeout = 3 * time.Second
 	}
+	cliOnPacket := cliSide.onPacket
+	if os.Getenv("C07_DEBUG") != "" && t.Fault == "heartbeat" {
+		cliOnPacket = func(ps ...*eioparser.Packet) {
+			for _, p := range ps {
+				if p.Type == eioparser.PacketTypePing && estAt.Load() != 0 {
+					run.Logf("debug %s: PING at client at est+%v via %s", t.id(), time.Since(time.Unix(0, estAt.Load())).Round(time.Millisecond), "?")
+				}
+			}
+			cliSide.onPacket(ps...)
+		}
+	}
 	cli, err := eio.Dial(px.URL("/engine.io/"), &eio.Callbacks{
-		OnPacket: cliSide.onPacket,
+		OnPacket: cliOnPacket,
 		OnError: func(err error) {
 			cliSide.mu.Lock()
 			cliSide.errors = append(cliSide.errors, err.Error())
@@ -348,6 +364,16 @@ func runTrial(run *vk.Run, t trial) (out outcome) {
 		cliSide.mu.Unlock()
 		return a && b
 	})
+	if t.Fault == "heartbeat" && !died() {
+		// a heartbeat lost at the swap shows one ping timeout after it was due: keep watching until then
+		est := t0
+		if v := estAt.Load(); v != 0 {
+			est = time.Unix(0, v)
+		}
+		for time.Now().Before(est.Add(2500*time.Millisecond)) && !died() {
+			time.Sleep(10 * time.Millisecond)
+		}
+	}
 	if died() {
 		// let both sides finish closing (server may need a ping timeout to notice)
 		vk.WaitUntil(8*time.Second, func() bool {
@@ -457,7 +483,7 @@ func runTrial(run *vk.Run, t trial) (out outcome) {
 
 func main() {
 	run := vk.Start("C07", "fault_enumeration")
-	run.Rule("trials = traffic pattern {full speed, jitter, bursts released when the websocket connection appears} x upgrade fault {none, slowed (traffic flows through the swap), held back and slowed so that the server's first PING is queued on polling when the UPGRADE packet arrives (lead swept 60..130 ms), refused, stalled (timeouts 1 s), " +
+	run.Rule("trials = traffic pattern {full speed, jitter, bursts released when the websocket connection appears} x upgrade fault {none, slowed (traffic flows through the swap), held back and slowed so that the server's first PING is queued on polling when the UPGRADE packet arrives (lead swept 70..130 ms; the trial watches until one ping timeout after that PING was due), refused, stalled (timeouts 1 s), " +
 		"cut at every 8th byte of the websocket byte stream in each direction}; numbered text and binary messages (every 97th one 33..113 KB) in both directions from before the attempt until after it; " +
 		"distinct = (pattern, fault, client swapped?, connection alive/died)")
 	run.Assume("order across the swap is not demanded (C02 covers settled transports)", "a cut after the client swapped legitimately kills the connection: then only at-most-once and close-once are required",
@@ -479,7 +505,7 @@ func main() {
 					trials = append(trials, trial{Pattern: p, Fault: f, Emitters: 8})
 				}
 				if f == "slow" && p == "jitter" {
-					for lead := int64(60); lead <= 130; lead += 10 {
+					for lead := int64(70); lead <= 130; lead += 10 {
 						trials = append(trials, trial{Pattern: p, Fault: "heartbeat", CutAt: lead})
 					}
 				}
